@@ -102,7 +102,17 @@ def main():
                 for t in _g.glob(os.path.join(wt, d, "tests", "test_*.py")):
                     if "plugins" in d or "git" in d:
                         names.add(os.path.relpath(t, wt))
+            if not names:
+                # no test module is named after the touched file: take the test modules that mention it
+                import subprocess as _sp
+                for f in meta["files"]:
+                    base = os.path.basename(f)[:-3]
+                    r = _sp.run("grep -rlE '(import|from) .*\\b%s\\b' --include='test_*.py' breezy | head -40" % base,
+                                shell=True, cwd=wt, stdout=_sp.PIPE, text=True)
+                    names.update(r.stdout.split())
             names = sorted(n for n in names if "test_serve" not in n)[:60]
+            if not names:
+                names = ["breezy/tests/test_osutils.py"]
             subset = " ".join(names)
             meta["suite_subset"] = names
         rc_s, o_s = sh("python3 %s/tools/run_suite.py %s -n 16 %s" % (V, wt, subset), timeout=7200)
